@@ -75,3 +75,15 @@ U("c06_set_language", ["C06"], "h_set_language", ["C06/create.c"], ["mmd.c"], en
 U("c06_my_strdup", ["C06"], "h_my_strdup", ["C06/create.c"], ["mmd.c"], plain=True, kind="bounded", lib=(), native=None, timeout=100,
   functions=["my_strdup"], bounds={"string length<": 6, "unwind": 8}, cbmc_flags=["--unwind", "8", "--unwinding-assertions"],
   callees={"strlen/strcpy/malloc": "CBMC built-in models"}, assumptions=[NOFAIL])
+
+# ---- the command line front end: main() of src/main.c with argtable3, streams and the library by contract
+for _nm, _h in (("batch", "h_cli_batch"), ("stream", "h_cli_stream")):
+    U("c06_cli_main_" + _nm, ["C06", "C05", "C12"], _h, ["C06/cli.c"], ["main.c"], plain=True, lib=("lib/ds_sink.c",), kind="bounded",
+      defines=["-DSINK_CAP=16"],
+      pre_instrument=["--generate-function-body", "^(?!__CPROVER_|malloc$|free$|calloc$|strcmp$|strlen$|strcpy$|strrchr$|memcpy$|verif_).*$", "--generate-function-body-options", "nondet-return"],
+      cbmc_flags=["--unwind", "22", "--unwinding-assertions", "--object-bits", "10"],
+      bounds={"mode": ("-b with two files 'a/x.md' 'bb/y.t'" if _nm == "batch" else "stdin to stdout"), "format": "html (default)", "flag options": "every combination (symbolic counts)", "unwind": 22},
+      functions=["main", "filename_with_extension", "my_strdup (main.c)"],
+      callees={"argtable3 (arg_lit0 ... arg_parse)": "contract stubs: harness-owned option records with symbolic counts, no parse error", "scan_file, stdin_buffer, mmd_* entry points, token_pool_*": "contract stubs recording their arguments in order",
+               "fopen/fwrite/fputs/fclose, dirname (cuts its argument in place, as glibc), realpath": "contract stubs", "d_string_*": "executable specification lib/ds_sink.c"},
+      min_obligations=20, timeout=600, cost=40, assumptions=[NOFAIL, "argument parsing itself (argtable3, 5 kLOC third-party) is trusted: the unit starts from parsed option records"])
